@@ -784,17 +784,61 @@ func staleMarking(c *Ctx, h *staleHiding, owner *Body, staleObj types.Object, fa
 			all := false
 			var ranged types.Object
 			inspectOwn(b.Block, func(k ast.Node) bool {
-				rs, isR := k.(*ast.RangeStmt)
-				if !isR || rs.Pos() > call.Pos() {
+				// the loop over the whole list P, in one of its forms: for _, p := range P / for i := range P /
+				// for i := 0; i < len(P); i++ — with the element written p resp. P[i]
+				var body *ast.BlockStmt
+				var listObj, valObj, idxObj types.Object
+				switch lp := k.(type) {
+				case *ast.RangeStmt:
+					if lp.Pos() > call.Pos() {
+						return true
+					}
+					x, isX := ast.Unparen(lp.X).(*ast.Ident)
+					if !isX {
+						return true
+					}
+					listObj, body = info.Uses[x], lp.Body
+					if v, isV := lp.Value.(*ast.Ident); isV && lp.Value != nil {
+						valObj = info.Defs[v]
+					}
+					if kk, isK := lp.Key.(*ast.Ident); isK && lp.Key != nil && kk.Name != "_" {
+						idxObj = info.Defs[kk]
+					}
+				case *ast.ForStmt:
+					if lp.Pos() > call.Pos() || lp.Init == nil || lp.Cond == nil || lp.Post == nil {
+						return true
+					}
+					init, ok1 := lp.Init.(*ast.AssignStmt)
+					cond, ok2 := ast.Unparen(lp.Cond).(*ast.BinaryExpr)
+					post, ok3 := lp.Post.(*ast.IncDecStmt)
+					if !ok1 || !ok2 || !ok3 || len(init.Lhs) != 1 || len(init.Rhs) != 1 || exprStr(init.Rhs[0]) != "0" || cond.Op != token.LSS || post.Tok != token.INC {
+						return true
+					}
+					iv, isI := init.Lhs[0].(*ast.Ident)
+					lc, isL := ast.Unparen(cond.Y).(*ast.CallExpr)
+					if !isI || !isL || exprStr(lc.Fun) != "len" || len(lc.Args) != 1 || exprStr(cond.X) != iv.Name || exprStr(post.X) != iv.Name {
+						return true
+					}
+					x, isX := ast.Unparen(lc.Args[0]).(*ast.Ident)
+					if !isX {
+						return true
+					}
+					listObj, idxObj, body = info.Uses[x], objOf(info, iv), lp.Body
+				default:
 					return true
 				}
-				x, isX := ast.Unparen(rs.X).(*ast.Ident)
-				v, isV := rs.Value.(*ast.Ident)
-				if !isX || !isV {
-					return true
+				isElem := func(e ast.Expr) bool {
+					switch y := ast.Unparen(e).(type) {
+					case *ast.Ident:
+						return valObj != nil && info.Uses[y] == valObj
+					case *ast.IndexExpr:
+						lx, ok1 := ast.Unparen(y.X).(*ast.Ident)
+						li, ok2 := ast.Unparen(y.Index).(*ast.Ident)
+						return ok1 && ok2 && idxObj != nil && info.Uses[lx] == listObj && info.Uses[li] == idxObj
+					}
+					return false
 				}
-				vObj := info.Defs[v]
-				for _, stt := range rs.Body.List {
+				for _, stt := range body.List {
 					as, isAs := stt.(*ast.AssignStmt)
 					if !isAs || len(as.Lhs) != 1 || len(as.Rhs) != 1 {
 						continue
@@ -804,10 +848,9 @@ func staleMarking(c *Ctx, h *staleHiding, owner *Body, staleObj types.Object, fa
 						continue
 					}
 					mid, isM := ast.Unparen(ix.X).(*ast.Ident)
-					kid, isK := ast.Unparen(ix.Index).(*ast.Ident)
-					if isM && isK && alias[info.Uses[mid]] && info.Uses[kid] == vObj && marks(as.Rhs[0]) {
+					if isM && alias[info.Uses[mid]] && isElem(ix.Index) && marks(as.Rhs[0]) {
 						all = true
-						ranged = info.Uses[x]
+						ranged = listObj
 					}
 				}
 				return true
